@@ -73,18 +73,18 @@ theorem mkNode_impl (k : Nat) (r : RRow) (es : List OutEdge) (hk : r.kind = .act
     rfl
 
 section
-variable (rnf : Bool) (F r : Flow) (M : Maps) (ns : Array NodeM) (j : Nat) (n : NodeM) (c : CRow) (es : List OutEdge)
-  (i' : Nat) (n' : NodeM) (rr : SwitchR)
+variable (rnf : Bool) (F r : Flow) (M : Maps) (ns : Array NodeM) (j : Nat) (n : NodeM) (c : CRow) (post : List Str)
+  (es : List OutEdge) (i' : Nat) (n' : NodeM) (rr : SwitchR)
 
-/-- an action row with conditional out-edges: the compiled action node, the compiled router node
-and the one reference node -/
-theorem impl_abs (hk : kindOf c.row.type = .action) (hp : ImplSim M ns n c es i' n' rr)
+/-- an action row with conditional out-edges: the compiled action node (with the actions merged into
+it), the compiled router node and the one reference node -/
+theorem impl_abs (hk : kindOf c.row.type = .action) (hp : ImplSim M ns n c post es i' n' rr)
     (hact : (toRRow c).act = c.row.action)
     (hv : ∀ e ∈ es.filter (fun e => !e.cond.blank), e.cond.var = implVar es)
     (hfn' : n'.fids.Nodup) :
     (absNode ⟨false, rnf⟩ r (mkNode j (toRRow c) es)).ask.isSome = true ∧
     absNode ⟨false, rnf⟩ F (renderNode n) =
-      { acts := (absNode ⟨false, rnf⟩ r (mkNode j (toRRow c) es)).acts, ask := none,
+      { acts := (absNode ⟨false, rnf⟩ r (mkNode j (toRRow c) es)).acts ++ post, ask := none,
         dests := [destIdx F (some n'.uid)] } ∧
     (absNode ⟨false, rnf⟩ F (renderNode n')).acts = [] ∧
     (absNode ⟨false, rnf⟩ F (renderNode n')).ask = (absNode ⟨false, rnf⟩ r (mkNode j (toRRow c) es)).ask ∧
@@ -113,7 +113,7 @@ theorem impl_abs (hk : kindOf c.row.type = .action) (hp : ImplSim M ns n c es i'
     · intro h; cases h
     · rintro ⟨m, hm⟩; split at hm <;> cases hm
   rw [absNode_sw rnf F n' rr hp.router' hp.acts' hcu hex hp.casecat hnrs,
-    absNode_plain_cmp _ F n c.row.action hp.router hp.acts]
+    absNode_plain_cmp' _ F n _ hp.router hp.acts]
   have hacts : (refActs j (toRRow c).act).map (·.obs) = c.row.action.toList := by
     rw [hact]; exact acts_obs j c.row.action
   refine ⟨rfl, ?_, rfl, ?_, ?_⟩
